@@ -1,10 +1,894 @@
 package interp
 
-import "go/types"
+import (
+	"fmt"
+	"go/types"
+	"reflect"
+	"sort"
+
+	"golang.org/x/tools/go/ssa"
+)
 
 // reflectValue is the engine's reflect.Value.
 type reflectValue struct {
-	t    types.Type // nil = invalid Value
+	t    types.Type // nil = zero (invalid) Value
 	v    value
-	addr *value // non-nil when addressable/settable
+	addr *value // non-nil when addressable / settable
+	ro   bool   // obtained through an unexported field
+	// bound method values
+	recv   value
+	method *ssa.Function
+}
+
+func kindOfType(t types.Type) reflect.Kind {
+	switch u := t.Underlying().(type) {
+	case *types.Basic:
+		switch u.Kind() {
+		case types.Bool:
+			return reflect.Bool
+		case types.Int:
+			return reflect.Int
+		case types.Int8:
+			return reflect.Int8
+		case types.Int16:
+			return reflect.Int16
+		case types.Int32:
+			return reflect.Int32
+		case types.Int64:
+			return reflect.Int64
+		case types.Uint:
+			return reflect.Uint
+		case types.Uint8:
+			return reflect.Uint8
+		case types.Uint16:
+			return reflect.Uint16
+		case types.Uint32:
+			return reflect.Uint32
+		case types.Uint64:
+			return reflect.Uint64
+		case types.Uintptr:
+			return reflect.Uintptr
+		case types.Float32:
+			return reflect.Float32
+		case types.Float64:
+			return reflect.Float64
+		case types.Complex64:
+			return reflect.Complex64
+		case types.Complex128:
+			return reflect.Complex128
+		case types.String:
+			return reflect.String
+		case types.UnsafePointer:
+			return reflect.UnsafePointer
+		}
+	case *types.Array:
+		return reflect.Array
+	case *types.Chan:
+		return reflect.Chan
+	case *types.Signature:
+		return reflect.Func
+	case *types.Interface:
+		return reflect.Interface
+	case *types.Map:
+		return reflect.Map
+	case *types.Pointer:
+		return reflect.Ptr
+	case *types.Slice:
+		return reflect.Slice
+	case *types.Struct:
+		return reflect.Struct
+	}
+	return reflect.Invalid
+}
+
+func (rv reflectValue) kind() reflect.Kind {
+	if rv.t == nil {
+		return reflect.Invalid
+	}
+	return kindOfType(rv.t)
+}
+
+// valueError mirrors reflect.ValueError panics.
+func valueError(method string, k reflect.Kind) {
+	msg := "reflect: call of " + method + " on zero Value"
+	if k != reflect.Invalid {
+		msg = "reflect: call of " + method + " on " + k.String() + " Value"
+	}
+	panic(targetPanic{v: mkError(msg)})
+}
+
+func reflectPanic(msg string) { panic(targetPanic{v: mkError(msg)}) }
+
+func rvArg(v value) reflectValue {
+	switch v := v.(type) {
+	case reflectValue:
+		return v
+	case *value:
+		if v == nil {
+			panic(runtimeError("invalid memory address or nil pointer dereference"))
+		}
+		return (*v).(reflectValue)
+	}
+	panic(fmt.Sprintf("rvArg: %T", v))
+}
+
+func (i *interpreter) rtypeIface(t types.Type) value {
+	if t == nil {
+		return iface{}
+	}
+	return iface{t: i.rtypePtrT(), v: rtype{t}}
+}
+
+var rtypePtr types.Type
+
+func (i *interpreter) rtypePtrT() types.Type {
+	if rtypePtr == nil {
+		rp := i.prog.ImportedPackage("reflect")
+		if rp == nil {
+			Unsupported("program does not import reflect")
+		}
+		rtypePtr = types.NewPointer(rp.Type("rtype").Type())
+	}
+	return rtypePtr
+}
+
+func rtypeArg(v value) types.Type {
+	switch v := v.(type) {
+	case iface:
+		if v.t == nil {
+			panic(runtimeError("invalid memory address or nil pointer dereference"))
+		}
+		return v.v.(rtype).t
+	case rtype:
+		return v.t
+	}
+	panic(fmt.Sprintf("rtypeArg: %T", v))
+}
+
+func isNilable(k reflect.Kind) bool {
+	switch k {
+	case reflect.Chan, reflect.Func, reflect.Map, reflect.Ptr, reflect.UnsafePointer, reflect.Interface, reflect.Slice:
+		return true
+	}
+	return false
+}
+
+func valueIsNil(v value) bool {
+	switch x := v.(type) {
+	case *value:
+		return x == nil
+	case *Map:
+		return x == nil
+	case *Chan:
+		return x == nil
+	case []value:
+		return x == nil
+	case iface:
+		return x.t == nil
+	case *ssa.Function:
+		return x == nil
+	case *closure:
+		return x == nil
+	case *nativeFn:
+		return x == nil
+	case nil:
+		return true
+	}
+	return false
+}
+
+func assignable(from, to types.Type) bool {
+	return types.AssignableTo(from, to)
+}
+
+// toIface returns the interface{} value holding rv (reflect.Value.Interface).
+func (rv reflectValue) toIface() value {
+	if rv.kind() == reflect.Interface {
+		if i, ok := rv.v.(iface); ok {
+			return i
+		}
+	}
+	return iface{t: rv.t, v: copyVal(rv.v)}
+}
+
+func (rv reflectValue) methodByName(i *interpreter, name string) reflectValue {
+	t := rv.t
+	recv := rv.v
+	if rv.kind() == reflect.Interface {
+		inner, ok := rv.v.(iface)
+		if !ok || inner.t == nil {
+			// method on nil interface: reflect returns a Value whose Call panics; keep it simple
+			if _, isI := t.Underlying().(*types.Interface); isI {
+				itf := t.Underlying().(*types.Interface)
+				for k := 0; k < itf.NumMethods(); k++ {
+					if itf.Method(k).Name() == name && itf.Method(k).Exported() {
+						reflectPanic("reflect: Method on nil interface value")
+					}
+				}
+			}
+			return reflectValue{}
+		}
+		// restrict to the methods of the static interface type
+		itf := t.Underlying().(*types.Interface)
+		found := false
+		for k := 0; k < itf.NumMethods(); k++ {
+			if itf.Method(k).Name() == name {
+				found = true
+			}
+		}
+		if !found {
+			return reflectValue{}
+		}
+		t, recv = inner.t, inner.v
+	}
+	ms := i.prog.MethodSets.MethodSet(t)
+	for k := 0; k < ms.Len(); k++ {
+		sel := ms.At(k)
+		if sel.Obj().Name() == name && sel.Obj().Exported() {
+			fn := i.prog.MethodValue(sel)
+			if fn == nil {
+				return reflectValue{}
+			}
+			sig := sel.Type().(*types.Signature)
+			ft := types.NewSignatureType(nil, nil, nil, sig.Params(), sig.Results(), sig.Variadic())
+			return reflectValue{t: ft, recv: recv, method: fn, v: fn}
+		}
+	}
+	return reflectValue{}
+}
+
+func exportedMethods(i *interpreter, t types.Type) []*types.Selection {
+	ms := i.prog.MethodSets.MethodSet(t)
+	var out []*types.Selection
+	for k := 0; k < ms.Len(); k++ {
+		if ms.At(k).Obj().Exported() {
+			out = append(out, ms.At(k))
+		}
+	}
+	sort.Slice(out, func(a, b int) bool { return out[a].Obj().Name() < out[b].Obj().Name() })
+	return out
+}
+
+// structOf builds a structure value for a named struct type of package reflect with the given fields.
+func (i *interpreter) reflectStruct(typeName string, fields map[string]value) value {
+	rp := i.prog.ImportedPackage("reflect")
+	T := rp.Type(typeName).Type()
+	st := T.Underlying().(*types.Struct)
+	s := zero(T).(structure)
+	for k := 0; k < st.NumFields(); k++ {
+		if v, ok := fields[st.Field(k).Name()]; ok {
+			s[k] = v
+		}
+	}
+	return s
+}
+
+func reflectTypeString(t types.Type) string {
+	return types.TypeString(t, func(p *types.Package) string { return p.Name() })
+}
+
+func init() {
+	reg("reflect.ValueOf", func(fr *frame, a []value) value {
+		i := a[0].(iface)
+		if i.t == nil {
+			return reflectValue{}
+		}
+		return reflectValue{t: i.t, v: i.v}
+	})
+	reg("reflect.TypeOf", func(fr *frame, a []value) value {
+		i := a[0].(iface)
+		return fr.i.rtypeIface(i.t)
+	})
+	reg("(reflect.Value).Kind", func(fr *frame, a []value) value { return uint(rvArg(a[0]).kind()) })
+	reg("(reflect.Value).IsValid", func(fr *frame, a []value) value { return rvArg(a[0]).t != nil })
+	reg("(reflect.Value).IsNil", func(fr *frame, a []value) value {
+		rv := rvArg(a[0])
+		k := rv.kind()
+		if !isNilable(k) {
+			valueError("reflect.Value.IsNil", k)
+		}
+		if rv.method != nil {
+			return false
+		}
+		return valueIsNil(rv.v)
+	})
+	reg("(reflect.Value).Len", func(fr *frame, a []value) value {
+		rv := rvArg(a[0])
+		switch rv.kind() {
+		case reflect.Slice:
+			return len(rv.v.([]value))
+		case reflect.Array:
+			return len(rv.v.(array))
+		case reflect.String:
+			return strLen(rv.v)
+		case reflect.Map:
+			return rv.v.(*Map).len()
+		case reflect.Chan:
+			if c := rv.v.(*Chan); c != nil {
+				return len(c.buf)
+			}
+			return 0
+		case reflect.Ptr:
+			if p, ok := rv.t.Underlying().(*types.Pointer); ok {
+				if arr, ok := p.Elem().Underlying().(*types.Array); ok {
+					return int(arr.Len())
+				}
+			}
+		}
+		valueError("reflect.Value.Len", rv.kind())
+		return nil
+	})
+	reg("(reflect.Value).Index", func(fr *frame, a []value) value {
+		rv := rvArg(a[0])
+		idx := int(concretizeInt(a[1], "reflect.Value.Index", 4096))
+		switch rv.kind() {
+		case reflect.Slice:
+			s := rv.v.([]value)
+			if idx < 0 || idx >= len(s) {
+				reflectPanic("reflect: slice index out of range")
+			}
+			return reflectValue{t: rv.t.Underlying().(*types.Slice).Elem(), v: s[idx], addr: &s[idx], ro: rv.ro}
+		case reflect.Array:
+			s := rv.v.(array)
+			if idx < 0 || idx >= len(s) {
+				reflectPanic("reflect: array index out of range")
+			}
+			r := reflectValue{t: rv.t.Underlying().(*types.Array).Elem(), v: s[idx], ro: rv.ro}
+			if rv.addr != nil {
+				r.addr = &(*rv.addr).(array)[idx]
+			}
+			return r
+		case reflect.String:
+			n := strLen(rv.v)
+			if idx < 0 || idx >= n {
+				reflectPanic("reflect: string index out of range")
+			}
+			return reflectValue{t: types.Typ[types.Uint8], v: strIndex(rv.v, idx)}
+		}
+		valueError("reflect.Value.Index", rv.kind())
+		return nil
+	})
+	reg("(reflect.Value).Interface", func(fr *frame, a []value) value {
+		rv := rvArg(a[0])
+		if rv.t == nil {
+			valueError("reflect.Value.Interface", reflect.Invalid)
+		}
+		if rv.ro {
+			reflectPanic("reflect.Value.Interface: cannot return value obtained from unexported field or method")
+		}
+		if rv.method != nil {
+			recv, fn := rv.recv, rv.method
+			return iface{t: rv.t, v: &nativeFn{name: fn.String(), fn: func(f2 *frame, args []value) value {
+				return call(fr.i, f2, 0, fn, append([]value{recv}, args...))
+			}}}
+		}
+		return rv.toIface()
+	})
+	reg("(reflect.Value).Elem", func(fr *frame, a []value) value {
+		rv := rvArg(a[0])
+		switch rv.kind() {
+		case reflect.Interface:
+			i, ok := rv.v.(iface)
+			if !ok || i.t == nil {
+				return reflectValue{}
+			}
+			return reflectValue{t: i.t, v: i.v, ro: rv.ro}
+		case reflect.Ptr:
+			p, _ := rv.v.(*value)
+			if p == nil {
+				return reflectValue{}
+			}
+			return reflectValue{t: rv.t.Underlying().(*types.Pointer).Elem(), v: *p, addr: p, ro: rv.ro}
+		}
+		valueError("reflect.Value.Elem", rv.kind())
+		return nil
+	})
+	reg("(reflect.Value).Type", func(fr *frame, a []value) value {
+		rv := rvArg(a[0])
+		if rv.t == nil {
+			valueError("reflect.Value.Type", reflect.Invalid)
+		}
+		return fr.i.rtypeIface(rv.t)
+	})
+	reg("(reflect.Value).String", func(fr *frame, a []value) value {
+		rv := rvArg(a[0])
+		switch rv.kind() {
+		case reflect.Invalid:
+			return "<invalid Value>"
+		case reflect.String:
+			return rv.v
+		}
+		return "<" + reflectTypeString(rv.t) + " Value>"
+	})
+	reg("(reflect.Value).CanSet", func(fr *frame, a []value) value { rv := rvArg(a[0]); return rv.addr != nil && !rv.ro })
+	reg("(reflect.Value).CanInterface", func(fr *frame, a []value) value {
+		rv := rvArg(a[0])
+		if rv.t == nil {
+			valueError("reflect.Value.CanInterface", reflect.Invalid)
+		}
+		return !rv.ro
+	})
+	reg("(reflect.Value).Set", func(fr *frame, a []value) value {
+		rv, x := rvArg(a[0]), rvArg(a[1])
+		if rv.t == nil {
+			valueError("reflect.Value.Set", reflect.Invalid)
+		}
+		if rv.addr == nil {
+			reflectPanic("reflect: reflect.Value.Set using unaddressable value")
+		}
+		if rv.ro {
+			reflectPanic("reflect: reflect.Value.Set using value obtained using unexported field")
+		}
+		if x.t == nil {
+			valueError("reflect.Value.Set", reflect.Invalid)
+		}
+		if x.ro {
+			reflectPanic("reflect: reflect.Value.Set using value obtained using unexported field")
+		}
+		if !assignable(x.t, rv.t) {
+			reflectPanic("reflect.Set: value of type " + reflectTypeString(x.t) + " is not assignable to type " + reflectTypeString(rv.t))
+		}
+		nv := copyVal(x.v)
+		if _, isI := rv.t.Underlying().(*types.Interface); isI {
+			if _, srcI := x.t.Underlying().(*types.Interface); !srcI {
+				nv = iface{t: x.t, v: nv}
+			}
+		}
+		*rv.addr = nv
+		return nil
+	})
+	reg("(reflect.Value).Slice", func(fr *frame, a []value) value {
+		rv := rvArg(a[0])
+		lo, hi := int(concretizeInt(a[1], "reflect.Value.Slice", 4096)), int(concretizeInt(a[2], "reflect.Value.Slice", 4096))
+		switch rv.kind() {
+		case reflect.Slice:
+			s := rv.v.([]value)
+			if lo < 0 || hi < lo || hi > cap(s) {
+				reflectPanic("reflect.Value.Slice: slice index out of bounds")
+			}
+			return reflectValue{t: rv.t, v: s[lo:hi]}
+		case reflect.String:
+			n := strLen(rv.v)
+			if lo < 0 || hi < lo || hi > n {
+				reflectPanic("reflect.Value.Slice: string slice index out of bounds")
+			}
+			return reflectValue{t: rv.t, v: strSlice(normStr(rv.v), lo, hi)}
+		case reflect.Array:
+			if rv.addr == nil {
+				reflectPanic("reflect.Value.Slice: slice of unaddressable array")
+			}
+			s := []value((*rv.addr).(array))
+			if lo < 0 || hi < lo || hi > len(s) {
+				reflectPanic("reflect.Value.Slice: slice index out of bounds")
+			}
+			return reflectValue{t: types.NewSlice(rv.t.Underlying().(*types.Array).Elem()), v: s[lo:hi]}
+		}
+		valueError("reflect.Value.Slice", rv.kind())
+		return nil
+	})
+	fieldOf := func(rv reflectValue, k int) reflectValue {
+		st := rv.t.Underlying().(*types.Struct)
+		s, ok := rv.v.(structure)
+		if !ok {
+			Unsupported("reflect field access on model-owned struct %s", rv.t)
+		}
+		r := reflectValue{t: st.Field(k).Type(), v: s[k], ro: rv.ro || !st.Field(k).Exported()}
+		if rv.addr != nil {
+			r.addr = &(*rv.addr).(structure)[k]
+		}
+		return r
+	}
+	var fieldByName func(rv reflectValue, name string, depth int) (reflectValue, bool)
+	fieldByName = func(rv reflectValue, name string, depth int) (reflectValue, bool) {
+		st := rv.t.Underlying().(*types.Struct)
+		for k := 0; k < st.NumFields(); k++ {
+			if st.Field(k).Name() == name {
+				return fieldOf(rv, k), true
+			}
+		}
+		if depth > 4 {
+			return reflectValue{}, false
+		}
+		// promoted fields through embedded structs / pointers to structs
+		for k := 0; k < st.NumFields(); k++ {
+			f := st.Field(k)
+			if !f.Embedded() {
+				continue
+			}
+			fv := fieldOf(rv, k)
+			ft := f.Type()
+			if p, ok := ft.Underlying().(*types.Pointer); ok {
+				if _, isS := p.Elem().Underlying().(*types.Struct); !isS {
+					continue
+				}
+				pv, _ := fv.v.(*value)
+				if pv == nil {
+					// reflect panics when traversing a nil embedded pointer only if the field is found there
+					sub := reflectValue{t: p.Elem(), v: zero(p.Elem())}
+					if _, found := fieldByName(sub, name, depth+1); found {
+						reflectPanic("reflect: indirection through nil pointer to embedded struct")
+					}
+					continue
+				}
+				fv = reflectValue{t: p.Elem(), v: *pv, addr: pv, ro: fv.ro}
+			} else if _, isS := ft.Underlying().(*types.Struct); !isS {
+				continue
+			}
+			if r, ok := fieldByName(fv, name, depth+1); ok {
+				return r, true
+			}
+		}
+		return reflectValue{}, false
+	}
+	reg("(reflect.Value).FieldByName", func(fr *frame, a []value) value {
+		rv := rvArg(a[0])
+		if rv.kind() != reflect.Struct {
+			valueError("reflect.Value.FieldByName", rv.kind())
+		}
+		name, ok := a[1].(string)
+		if !ok {
+			Unsupported("FieldByName with symbolic name")
+		}
+		r, _ := fieldByName(rv, name, 0)
+		return r
+	})
+	reg("(reflect.Value).NumField", func(fr *frame, a []value) value {
+		rv := rvArg(a[0])
+		if rv.kind() != reflect.Struct {
+			valueError("reflect.Value.NumField", rv.kind())
+		}
+		return rv.t.Underlying().(*types.Struct).NumFields()
+	})
+	reg("(reflect.Value).Field", func(fr *frame, a []value) value {
+		rv := rvArg(a[0])
+		if rv.kind() != reflect.Struct {
+			valueError("reflect.Value.Field", rv.kind())
+		}
+		k := int(asInt64(a[1]))
+		if k < 0 || k >= rv.t.Underlying().(*types.Struct).NumFields() {
+			reflectPanic("reflect: Field index out of range")
+		}
+		return fieldOf(rv, k)
+	})
+	reg("(reflect.Value).MapKeys", func(fr *frame, a []value) value {
+		rv := rvArg(a[0])
+		if rv.kind() != reflect.Map {
+			valueError("reflect.Value.MapKeys", rv.kind())
+		}
+		kt := rv.t.Underlying().(*types.Map).Key()
+		var out []value
+		for _, e := range orderForRange(rv.v.(*Map).live()) {
+			out = append(out, reflectValue{t: kt, v: e.key})
+		}
+		return out
+	})
+	reg("(reflect.Value).MapIndex", func(fr *frame, a []value) value {
+		rv, k := rvArg(a[0]), rvArg(a[1])
+		if rv.kind() != reflect.Map {
+			valueError("reflect.Value.MapIndex", rv.kind())
+		}
+		mt := rv.t.Underlying().(*types.Map)
+		kv := k.v
+		if _, isI := mt.Key().Underlying().(*types.Interface); isI && k.kind() != reflect.Interface {
+			kv = iface{t: k.t, v: k.v}
+		}
+		v, ok := rv.v.(*Map).lookup(kv)
+		if !ok {
+			return reflectValue{}
+		}
+		return reflectValue{t: mt.Elem(), v: v}
+	})
+	reg("(reflect.Value).MethodByName", func(fr *frame, a []value) value {
+		rv := rvArg(a[0])
+		if rv.t == nil {
+			valueError("reflect.Value.MethodByName", reflect.Invalid)
+		}
+		name, ok := a[1].(string)
+		if !ok {
+			Unsupported("MethodByName with symbolic name")
+		}
+		if rv.ro {
+			return reflectValue{}
+		}
+		return rv.methodByName(fr.i, name)
+	})
+	reg("(reflect.Value).NumMethod", func(fr *frame, a []value) value {
+		rv := rvArg(a[0])
+		if rv.t == nil {
+			valueError("reflect.Value.NumMethod", reflect.Invalid)
+		}
+		return len(exportedMethods(fr.i, rv.t))
+	})
+	reg("(reflect.Value).Call", func(fr *frame, a []value) value {
+		rv := rvArg(a[0])
+		if rv.kind() != reflect.Func {
+			valueError("reflect.Value.Call", rv.kind())
+		}
+		in := a[1].([]value)
+		sig := rv.t.Underlying().(*types.Signature)
+		if !sig.Variadic() && len(in) != sig.Params().Len() {
+			if len(in) < sig.Params().Len() {
+				reflectPanic("reflect: Call with too few input arguments")
+			}
+			reflectPanic("reflect: Call with too many input arguments")
+		}
+		if sig.Variadic() {
+			Unsupported("reflect.Value.Call of variadic function")
+		}
+		var args []value
+		for k, x := range in {
+			xv := rvArg(x)
+			if xv.t == nil {
+				reflectPanic("reflect: Call using zero Value argument")
+			}
+			pt := sig.Params().At(k).Type()
+			if !assignable(xv.t, pt) {
+				reflectPanic("reflect: Call using " + reflectTypeString(xv.t) + " as type " + reflectTypeString(pt))
+			}
+			av := xv.v
+			if _, isI := pt.Underlying().(*types.Interface); isI && xv.kind() != reflect.Interface {
+				av = iface{t: xv.t, v: av}
+			}
+			args = append(args, av)
+		}
+		var res value
+		if rv.method != nil {
+			res = call(fr.i, fr, fr.callpos, rv.method, append([]value{rv.recv}, args...))
+		} else {
+			if valueIsNil(rv.v) {
+				reflectPanic("reflect: call of nil function")
+			}
+			res = call(fr.i, fr, fr.callpos, rv.v, args)
+		}
+		var out []value
+		switch sig.Results().Len() {
+		case 0:
+		case 1:
+			out = append(out, reflectValue{t: sig.Results().At(0).Type(), v: res})
+		default:
+			for k, r := range res.(tuple) {
+				out = append(out, reflectValue{t: sig.Results().At(k).Type(), v: r})
+			}
+		}
+		return out
+	})
+	reg("reflect.Append", func(fr *frame, a []value) value {
+		s := rvArg(a[0])
+		if s.kind() != reflect.Slice {
+			valueError("reflect.Append", s.kind())
+		}
+		et := s.t.Underlying().(*types.Slice).Elem()
+		out := s.v.([]value)
+		for _, x := range a[1].([]value) {
+			xv := rvArg(x)
+			if xv.t == nil {
+				valueError("reflect.Value.Set", reflect.Invalid)
+			}
+			if !assignable(xv.t, et) {
+				reflectPanic("reflect.Set: value of type " + reflectTypeString(xv.t) + " is not assignable to type " + reflectTypeString(et))
+			}
+			nv := copyVal(xv.v)
+			if _, isI := et.Underlying().(*types.Interface); isI && xv.kind() != reflect.Interface {
+				nv = iface{t: xv.t, v: nv}
+			}
+			out = append(out, nv)
+		}
+		return reflectValue{t: s.t, v: out}
+	})
+	reg("reflect.AppendSlice", func(fr *frame, a []value) value {
+		s, t := rvArg(a[0]), rvArg(a[1])
+		if s.kind() != reflect.Slice {
+			valueError("reflect.AppendSlice", s.kind())
+		}
+		if t.kind() != reflect.Slice {
+			valueError("reflect.AppendSlice", t.kind())
+		}
+		se, te := s.t.Underlying().(*types.Slice).Elem(), t.t.Underlying().(*types.Slice).Elem()
+		if !types.Identical(se, te) {
+			reflectPanic("reflect.AppendSlice: " + reflectTypeString(se) + " != " + reflectTypeString(te))
+		}
+		out := s.v.([]value)
+		for _, e := range t.v.([]value) {
+			out = append(out, copyVal(e))
+		}
+		return reflectValue{t: s.t, v: out}
+	})
+	reg("reflect.MakeSlice", func(fr *frame, a []value) value {
+		t := rtypeArg(a[0])
+		if kindOfType(t) != reflect.Slice {
+			reflectPanic("reflect.MakeSlice of non-slice type")
+		}
+		n, c := int(asInt64(a[1])), int(asInt64(a[2]))
+		if n < 0 {
+			reflectPanic("reflect.MakeSlice: negative len")
+		}
+		if c < 0 {
+			reflectPanic("reflect.MakeSlice: negative cap")
+		}
+		if n > c {
+			reflectPanic("reflect.MakeSlice: len > cap")
+		}
+		s := make([]value, c)
+		et := t.Underlying().(*types.Slice).Elem()
+		for k := range s {
+			s[k] = zero(et)
+		}
+		return reflectValue{t: t, v: s[:n]}
+	})
+	reg("reflect.SliceOf", func(fr *frame, a []value) value {
+		return fr.i.rtypeIface(types.NewSlice(rtypeArg(a[0])))
+	})
+	reg("reflect.PtrTo", func(fr *frame, a []value) value { return fr.i.rtypeIface(types.NewPointer(rtypeArg(a[0]))) })
+	reg("reflect.PointerTo", func(fr *frame, a []value) value { return fr.i.rtypeIface(types.NewPointer(rtypeArg(a[0]))) })
+	reg("reflect.New", func(fr *frame, a []value) value {
+		i := a[0].(iface)
+		if i.t == nil {
+			reflectPanic("reflect: New(nil)")
+		}
+		t := rtypeArg(a[0])
+		cell := zero(t)
+		return reflectValue{t: types.NewPointer(t), v: &cell}
+	})
+	reg("reflect.Zero", func(fr *frame, a []value) value {
+		i := a[0].(iface)
+		if i.t == nil {
+			reflectPanic("reflect: Zero(nil)")
+		}
+		t := rtypeArg(a[0])
+		return reflectValue{t: t, v: zero(t)}
+	})
+	reg("reflect.Indirect", func(fr *frame, a []value) value {
+		rv := rvArg(a[0])
+		if rv.kind() != reflect.Ptr {
+			return rv
+		}
+		p, _ := rv.v.(*value)
+		if p == nil {
+			return reflectValue{}
+		}
+		return reflectValue{t: rv.t.Underlying().(*types.Pointer).Elem(), v: *p, addr: p}
+	})
+
+	// reflect.Type (dynamic type *reflect.rtype)
+	reg("(*reflect.rtype).Kind", func(fr *frame, a []value) value { return uint(kindOfType(rtypeArg(a[0]))) })
+	reg("(*reflect.rtype).String", func(fr *frame, a []value) value { return reflectTypeString(rtypeArg(a[0])) })
+	reg("(*reflect.rtype).Name", func(fr *frame, a []value) value {
+		switch t := rtypeArg(a[0]).(type) {
+		case *types.Named:
+			return t.Obj().Name()
+		case *types.Basic:
+			return t.Name()
+		}
+		return ""
+	})
+	reg("(*reflect.rtype).PkgPath", func(fr *frame, a []value) value {
+		if t, ok := rtypeArg(a[0]).(*types.Named); ok && t.Obj().Pkg() != nil {
+			return t.Obj().Pkg().Path()
+		}
+		return ""
+	})
+	reg("(*reflect.rtype).Elem", func(fr *frame, a []value) value {
+		t := rtypeArg(a[0])
+		switch u := t.Underlying().(type) {
+		case *types.Array:
+			return fr.i.rtypeIface(u.Elem())
+		case *types.Chan:
+			return fr.i.rtypeIface(u.Elem())
+		case *types.Map:
+			return fr.i.rtypeIface(u.Elem())
+		case *types.Pointer:
+			return fr.i.rtypeIface(u.Elem())
+		case *types.Slice:
+			return fr.i.rtypeIface(u.Elem())
+		}
+		reflectPanic("reflect: Elem of invalid type " + reflectTypeString(t))
+		return nil
+	})
+	reg("(*reflect.rtype).NumField", func(fr *frame, a []value) value {
+		t := rtypeArg(a[0])
+		st, ok := t.Underlying().(*types.Struct)
+		if !ok {
+			reflectPanic("reflect: NumField of non-struct type " + reflectTypeString(t))
+		}
+		return st.NumFields()
+	})
+	reg("(*reflect.rtype).Field", func(fr *frame, a []value) value {
+		t := rtypeArg(a[0])
+		st, ok := t.Underlying().(*types.Struct)
+		if !ok {
+			reflectPanic("reflect: Field of non-struct type " + reflectTypeString(t))
+		}
+		k := int(asInt64(a[1]))
+		if k < 0 || k >= st.NumFields() {
+			reflectPanic("reflect: Field index out of bounds")
+		}
+		f := st.Field(k)
+		pkg := ""
+		if !f.Exported() && f.Pkg() != nil {
+			pkg = f.Pkg().Path()
+		}
+		return fr.i.reflectStruct("StructField", map[string]value{
+			"Name": f.Name(), "PkgPath": pkg, "Type": fr.i.rtypeIface(f.Type()), "Tag": st.Tag(k),
+			"Index": []value{k}, "Anonymous": f.Embedded(),
+		})
+	})
+	reg("(*reflect.rtype).NumMethod", func(fr *frame, a []value) value {
+		return len(exportedMethods(fr.i, rtypeArg(a[0])))
+	})
+	reg("(*reflect.rtype).Method", func(fr *frame, a []value) value {
+		t := rtypeArg(a[0])
+		ms := exportedMethods(fr.i, t)
+		k := int(asInt64(a[1]))
+		if k < 0 || k >= len(ms) {
+			reflectPanic("reflect: Method index out of range")
+		}
+		sel := ms[k]
+		sig := sel.Type().(*types.Signature)
+		// Method.Type includes the receiver as first parameter
+		params := []*types.Var{types.NewVar(0, nil, "", t)}
+		for p := 0; p < sig.Params().Len(); p++ {
+			params = append(params, sig.Params().At(p))
+		}
+		ft := types.NewSignatureType(nil, nil, nil, types.NewTuple(params...), sig.Results(), sig.Variadic())
+		if _, isI := t.Underlying().(*types.Interface); isI {
+			ft = types.NewSignatureType(nil, nil, nil, sig.Params(), sig.Results(), sig.Variadic())
+		}
+		return fr.i.reflectStruct("Method", map[string]value{
+			"Name": sel.Obj().Name(), "Type": fr.i.rtypeIface(ft), "Index": k,
+		})
+	})
+	reg("(*reflect.rtype).MethodByName", func(fr *frame, a []value) value {
+		t := rtypeArg(a[0])
+		name, _ := a[1].(string)
+		for k, sel := range exportedMethods(fr.i, t) {
+			if sel.Obj().Name() == name {
+				sig := sel.Type().(*types.Signature)
+				params := []*types.Var{types.NewVar(0, nil, "", t)}
+				for p := 0; p < sig.Params().Len(); p++ {
+					params = append(params, sig.Params().At(p))
+				}
+				ft := types.NewSignatureType(nil, nil, nil, types.NewTuple(params...), sig.Results(), sig.Variadic())
+				return tuple{fr.i.reflectStruct("Method", map[string]value{"Name": name, "Type": fr.i.rtypeIface(ft), "Index": k}), true}
+			}
+		}
+		return tuple{fr.i.reflectStruct("Method", nil), false}
+	})
+	sigOf := func(t types.Type, what string) *types.Signature {
+		s, ok := t.Underlying().(*types.Signature)
+		if !ok {
+			reflectPanic("reflect: " + what + " of non-func type " + reflectTypeString(t))
+		}
+		return s
+	}
+	reg("(*reflect.rtype).NumOut", func(fr *frame, a []value) value { return sigOf(rtypeArg(a[0]), "NumOut").Results().Len() })
+	reg("(*reflect.rtype).NumIn", func(fr *frame, a []value) value { return sigOf(rtypeArg(a[0]), "NumIn").Params().Len() })
+	reg("(*reflect.rtype).Out", func(fr *frame, a []value) value {
+		s := sigOf(rtypeArg(a[0]), "Out")
+		k := int(asInt64(a[1]))
+		if k < 0 || k >= s.Results().Len() {
+			panic(runtimeError(fmt.Sprintf("index out of range [%d] with length %d", k, s.Results().Len())))
+		}
+		return fr.i.rtypeIface(s.Results().At(k).Type())
+	})
+	reg("(*reflect.rtype).In", func(fr *frame, a []value) value {
+		s := sigOf(rtypeArg(a[0]), "In")
+		k := int(asInt64(a[1]))
+		if k < 0 || k >= s.Params().Len() {
+			panic(runtimeError(fmt.Sprintf("index out of range [%d] with length %d", k, s.Params().Len())))
+		}
+		return fr.i.rtypeIface(s.Params().At(k).Type())
+	})
+	reg("(*reflect.rtype).Implements", func(fr *frame, a []value) value {
+		t, u := rtypeArg(a[0]), rtypeArg(a[1])
+		itf, ok := u.Underlying().(*types.Interface)
+		if !ok {
+			reflectPanic("reflect: non-interface type passed to Type.Implements")
+		}
+		return types.Implements(t, itf)
+	})
+	reg("(*reflect.rtype).AssignableTo", func(fr *frame, a []value) value {
+		return types.AssignableTo(rtypeArg(a[0]), rtypeArg(a[1]))
+	})
+	reg("(*reflect.rtype).Comparable", func(fr *frame, a []value) value { return types.Comparable(rtypeArg(a[0])) })
+	reg("(reflect.Kind).String", func(fr *frame, a []value) value { return reflect.Kind(asInt64(a[0])).String() })
 }
